@@ -10,7 +10,7 @@ from ..builders import pack as P
 
 TRUSTED = [
     'Coq 8.16.1 kernel (coqc); no axioms; SHA-256 is an uninterpreted Section variable and NOTHING is assumed about it: '
-    'the tamper theorem concludes "records unchanged OR an explicit collision"',
+    'the tamper theorem concludes "records unchanged OR an explicit collision"; the serialise-then-parse theorem assumes only len (H x) = 32',
     'hand model coq/Model/Tmd.v of TitleMetadataReader.load (layout per signature type, hash checks, record parsing, '
     'hash-twice check, issuer decode), tied by the correspondence run on valid, corrupted and truncated inputs',
     'translator py2gallina.py: TitleVersion / ContentTypeFlags conversions regenerated each run',
@@ -19,8 +19,12 @@ TRUSTED = [
 ASSUME = [
     'the tamper theorem needs both inputs to contain all chunk records their header announces (a truncated chunk area is parsed into short '
     'phantom records by the implementation and by the model)',
-    'parse/serialise round trips are decided on the implementation by direct oracle on generated TMDs (all six signature types, all 65 536 '
-    'category values in the thorough tier); there is no Coq theorem for __bytes__',
+    'the round-trip theorems are about the hand model Model/TmdSer.v of __bytes__ and of the field extraction of load (tied by the '
+    'correspondence run: bytes(load(b)) and every field of the object, on well-formed files, accepted tampers and files that load without '
+    'being well formed); the issuer is modelled as its ASCII bytes and the title id as its 8 bytes (str.encode/decode("ascii") on bytes < 128 '
+    'and bytes.hex/fromhex are trusted to be inverse); C11_load_of_bytes assumes that the hash function returns 32 bytes',
+    'parse/serialise round trips are additionally decided on the implementation by direct oracle on generated TMDs (all six signature types, '
+    'all 65 536 category values in the thorough tier)',
     'well-formed TMD as in DESIGN section 7: chunk type bits within 0xC007, non-zero info records contiguous from slot 0, zero signature padding, '
     'distinct chunk records',
 ]
@@ -81,6 +85,72 @@ def model_vs_impl(ctx, mr, case, raw, verify):
     return t, impl
 
 
+FIELDS = ['_u_issuer', '_u_version', '_u_ca_crl_version', '_u_signer_crl_version', '_u_reserved1', '_u_system_version', 'title_id',
+          '_u_title_type', '_u_group_id', 'save_size', 'srl_save_size', '_u_reserved2', '_u_srl_flag', '_u_reserved3', '_u_access_rights',
+          'title_version', 'content_count', '_u_boot_count', '_u_padding']
+
+
+def field_dump(t):
+    out = []
+    for a in FIELDS:
+        v = getattr(t, a)
+        if a == '_u_issuer':
+            v = hx(v.encode('ascii'))
+        elif a == 'title_id':
+            v = hx(bytes.fromhex(v))
+        elif a == 'title_version':
+            v = '%x' % int(v)
+        elif isinstance(v, (bytes, bytearray)):
+            v = hx(bytes(v))
+        else:
+            v = '%x' % v
+        out.append(v)
+    return ' '.join(out)
+
+
+def reserialise_vs_model(ctx, mr, case, raw, verify):
+    """bytes(load(raw)) and the fields of the loaded object: Coq model (Model/TmdSer.v, the object of the round-trip theorems) vs implementation"""
+    from pyctr.type.tmd import TitleMetadataReader
+    try:
+        t = TitleMetadataReader.load(io.BytesIO(raw), verify_hashes=verify)
+    except Exception as e:
+        t, impl = None, 'e:' + pyenv.errname(e)
+    if t is not None:
+        try:
+            impl = 'ok ' + hx(bytes(t)) + ' F ' + field_dump(t)
+        except Exception as e:
+            impl = 'ok e:' + pyenv.errname(e)
+    out = mr.ask('tmdrt %d %s' % (verify, hx(raw)))
+    if out != impl:
+        a, b = out.split(' '), impl.split(' ')
+        k = next((i for i, (x, y) in enumerate(zip(a, b)) if x != y), min(len(a), len(b)))
+        ctx.diff('corr', 'tmd-serialise-model', case, ' '.join(a[k:k + 1])[:120], ' '.join(b[k:k + 1])[:120],
+                 f'bytes(load(b)) / object fields: Coq model and implementation differ (token {k})')
+    ctx.stat('reserialise_model')
+    return t
+
+
+def entry_points(ctx, case, raw, t, impl):
+    """the other ways of loading a TMD (from_file with a file object / a path on a filesystem object, default options) give the verdict
+    load() gives: verification is on by default everywhere"""
+    from pyctr.type.tmd import TitleMetadataReader
+    from fs.memoryfs import MemoryFS
+    mem = MemoryFS()
+    mem.writebytes('t.tmd', raw)
+    for name, call in (('from_file(fileobj)', lambda: TitleMetadataReader.from_file(io.BytesIO(raw))),
+                       ('from_file(path, fs=)', lambda: TitleMetadataReader.from_file('t.tmd', fs=mem))):
+        try:
+            t2 = call()
+            got = 'ok'
+        except Exception as e:
+            t2, got = None, 'e:' + pyenv.errname(e)
+        want = 'ok' if t is not None else impl
+        if got != want or (t2 is not None and dump(t2) != dump(t)):
+            ctx.diff('oracle', 'tmd-entry-point', dict(case, entry=name), want, got, f'{name} does not give the verdict of load(): {got} instead of {want}')
+        ctx.stat('entry_points')
+    mem.close()
+
+
 def covered_records(t):
     out = []
     for ir in t.info_records:
@@ -103,6 +173,22 @@ def run_case(ctx, mr, case):
     except Exception as ex:
         ctx.diff('oracle', 'tmd-serialise-raises', case, 'bytes', pyenv.errname(ex), f'serialising a loaded TMD raised {pyenv.errname(ex)}')
         return
+    reserialise_vs_model(ctx, mr, case, raw, True)
+    if rng.random() < 0.5:
+        # inputs that load but are not well formed: the serialisation differs from the input, the model must say how
+        odd = bytearray(raw)
+        hs_ = len(raw) - 0xC4 - 0x900 - 48 * len(ch)
+        kind = rng.randrange(4)
+        if kind == 0:
+            odd[4 + rng.randrange(hs_ - 4)] ^= 0x5A                                   # signature / padding bytes
+        elif kind == 1 and ch:
+            odd[hs_ + 0xC4 + 0x900 + 48 * rng.randrange(len(ch)) + 6] ^= rng.choice([0x10, 0x20, 0x08])   # type bits the object does not keep
+        elif kind == 2:
+            k = rng.randrange(1, 64)                                                  # an info record behind a gap
+            odd[hs_ + 0xC4 + 36 * k:hs_ + 0xC4 + 36 * k + 4] = bytes([0xFF, 0xF0, 0, 0])
+        else:
+            odd[hs_ + rng.randrange(0x40, 0xA4)] ^= 0x81                              # any header field behind the issuer
+        reserialise_vs_model(ctx, mr, dict(case, odd=kind), bytes(odd), False)
     if back != raw:
         k = next((i for i, (a, b) in enumerate(zip(back, raw)) if a != b), min(len(back), len(raw)))
         ctx.diff('oracle', 'tmd-bytes-roundtrip', case, raw[k:k + 16].hex(), back[k:k + 16].hex(), f'bytes(load(b)) != b at offset {k:#x}')
@@ -144,6 +230,8 @@ def run_case(ctx, mr, case):
         ctx.stat('tamper_cases')
         tcase = dict(case, tamper_pos=pos)
         tt, timpl = model_vs_impl(ctx, mr, tcase, bad, True)
+        if rng.random() < 0.5:
+            entry_points(ctx, tcase, bad, tt, timpl)
         if tt is None:
             if not timpl.startswith('e:Pyctr3'):
                 ctx.diff('oracle', 'tmd-tamper-error-class', tcase, 'a title-metadata error', timpl, 'tampered TMD failed with a non-TMD error')
@@ -179,7 +267,7 @@ def gen_cases(ctx, rng):
 
 
 def run(ctx):
-    proof = prove('C11', ['tmd'], ['C11_props'], static_deps=['Proofs/TmdProofs.v', 'Base/PyInt.v', 'Base/Fields.v'])
+    proof = prove('C11', ['tmd'], ['C11_props'], static_deps=['Proofs/TmdProofs.v', 'Proofs/TmdSerProofs.v', 'Base/PyInt.v', 'Base/Fields.v'])
     run_cases(ctx, gen_cases(ctx, ctx.rng))
 
     def search():
